@@ -25,6 +25,12 @@ structure Cfg.Good (c : Cfg) : Prop where
   check : c.checkBeforeSleep = true
   ge : c.deadlineGe = true
   validate : c.validateNonNeg = true
+  -- extension: the argument checks / the Popen wrapper have the shape the theorems speak about
+  -- (`popenValidateFirst` is deliberately NOT constrained: theorems are stated for both values)
+  pidCheck : c.pidCheck = true
+  cbCheck : c.cbCheck = true
+  popenRcFirst : c.popenRcFirst = true
+  popenStoresRc : c.popenStoresRc = true
 
 theorem Cfg.Good.i0_eq {c : Cfg} (hg : c.Good) : c.i0 = Spec.i0 := by
   simp [Cfg.i0, Spec.i0, hg.i0n, hg.i0d]
